@@ -1,4 +1,125 @@
-import LecModel
-import LecGen
+/-
+  C15 — Calls are pure: inputs untouched, reads in bounds, results history-independent.
+
+  What the model can carry:
+  `header_reads_80`      header validation depends only on the first 80 bytes of the fragment;
+  `metadata_reads_bounded`
+                         the metadata query depends only on the 80 header bytes and the `size`
+                         payload bytes the (accepted, host-order) header announces — so with
+                         `size ≤ fragment_len − 80` it reads inside [buffer, buffer+fragment_len);
+  `encode_function_of_instance`, `lookup_stable`
+                         results are functions of (environment switch, backend, instance record,
+                         arguments) and an instance record is not changed by any call on any other
+                         descriptor (C14 isolation): the bytes encode produces do not depend on the
+                         calls that preceded it or on which other instances exist;
+  inputs are immutable values in the model, so "never writes to the caller's input" holds by
+  construction there.  That the compiled code performs no stray read or write, and the same from
+  another thread, is runtime behaviour — *partial*: the harness places every input of encode,
+  decode, reconstruct, the metadata query and validation on read-only pages ending at an
+  inaccessible page (so any write or over-read faults), compares inputs before/after every call in
+  every suite, and re-encodes after unrelated API activity and from a second thread.
+-/
+import LecProofs.BytesLemmas
+import LecProofs.HeaderLemmas
+import LecModel.Frontend
+import LecProps.C14
 namespace LecProps.C15
+open Lec
+
+theorem rdBytes_take (b : Bytes) (n off w : Nat) (h : off + w ≤ n) :
+    rdBytes (b.take n) off w = rdBytes b off w := by
+  unfold rdBytes
+  have : ((b.take n).drop off).take w = (b.drop off).take w := by
+    rw [List.drop_take, List.take_take]
+    congr 1
+    omega
+  simp only [this]
+
+theorem rd32_take (b : Bytes) (n off : Nat) (h : off + 4 ≤ n) : rd32 (b.take n) off = rd32 b off := by
+  unfold rd32; rw [rdBytes_take b n off 4 h]
+theorem rd64_take (b : Bytes) (n off : Nat) (h : off + 8 ≤ n) : rd64 (b.take n) off = rd64 b off := by
+  unfold rd64; rw [rdBytes_take b n off 8 h]
+theorem rd8_take (b : Bytes) (n off : Nat) (h : off + 1 ≤ n) : rd8 (b.take n) off = rd8 b off := by
+  unfold rd8; rw [rdBytes_take b n off 1 h]
+
+theorem metaBytes_take (f : Bytes) (n : Nat) (h : 80 ≤ n) : fMetaBytes (f.take n) = fMetaBytes f := by
+  unfold fMetaBytes Hdr.metaSize
+  rw [List.take_take]; congr 1; omega
+
+/-- header validation looks at the 80 header bytes only. -/
+theorem header_reads_80 (f : Bytes) (n : Nat) (h : 80 ≤ n) : isInvalidHeader (f.take n) = isInvalidHeader f := by
+  unfold isInvalidHeader fLibver fMetaCrc fMagic Hdr.offLibver Hdr.offMetaCrc Hdr.offMagic
+  rw [rd32_take f n 63 (by omega), rd32_take f n 67 (by omega), rd32_take f n 59 (by omega),
+    metaBytes_take f n h]
+
+theorem parseMeta_take (f : Bytes) (n : Nat) (h : 80 ≤ n) : parseMeta (f.take n) = parseMeta f := by
+  unfold parseMeta fIdx fSize fBmSize fOrig fCtype fChk fMismatch fBeId fBeVer
+    Hdr.offIdx Hdr.offSize Hdr.offBmSize Hdr.offOrig Hdr.offCtype Hdr.offChksum Hdr.offMismatch Hdr.offBeId Hdr.offBeVer
+  rw [rd32_take f n 0 (by omega), rd32_take f n 4 (by omega), rd32_take f n 8 (by omega),
+    rd64_take f n 12 (by omega), rd8_take f n 20 (by omega), rd8_take f n 53 (by omega),
+    rd8_take f n 54 (by omega), rd32_take f n 55 (by omega)]
+  congr 1
+  apply List.map_congr_left
+  intro i hi
+  have : i < 8 := by simpa using hi
+  exact rd32_take f n (21 + 4 * i) (by omega)
+
+/-- the metadata query of a host-order fragment reads the header and `size` payload bytes. -/
+theorem metadata_reads_bounded (f : Bytes) (n : Nat) (hn : 80 + fSize f ≤ n) (hm : fMagic f = magicC) :
+    getFragmentMetadata (f.take n) = getFragmentMetadata f := by
+  have h80 : 80 ≤ n := by omega
+  unfold getFragmentMetadata
+  rw [header_reads_80 f n h80, parseMeta_take f n h80]
+  have hmag : fMagic (f.take n) = fMagic f := by
+    unfold fMagic Hdr.offMagic; exact rd32_take f n 59 (by omega)
+  rw [hmag, hm]
+  have hpay : (fPayload (f.take n)).take (parseMeta f).size = (fPayload f).take (parseMeta f).size := by
+    unfold fPayload Hdr.size
+    have hs : (parseMeta f).size = fSize f := rfl
+    rw [hs, List.drop_take, List.take_take]
+    congr 1
+    omega
+  simp only [bne_self_eq_false, Bool.false_eq_true, if_false, hpay]
+
+/-- results depend on the instance record only … -/
+theorem encode_function_of_instance (env : Env) (be : Backend) (i₁ i₂ : Inst) (data : Bytes) (h : i₁ = i₂) :
+    encode env be i₁ data = encode env be i₂ data := by rw [h]
+
+/-- … and the record behind a live descriptor survives every create / destroy of other
+    descriptors, hence every history of calls on other instances. -/
+theorem lookup_stable (r : Registry) (ops : List LecProps.C14.Op) (d : Int) (inst : Inst)
+    (hl : r.lookup d = some inst)
+    (hno : ∀ o ∈ ops, o ≠ LecProps.C14.Op.destroy d) :
+    (ops.foldl LecProps.C14.stepOp r).lookup d = some inst := by
+  induction ops generalizing r with
+  | nil => exact hl
+  | cons o os ih =>
+    simp only [List.foldl_cons]
+    apply ih
+    · cases o with
+      | create a id k m w hd ct =>
+        have hm : d ∈ r.live.map (·.1) := (LecProps.C14.lookup_isSome_iff r d).mp (by rw [hl]; rfl)
+        show (r.create a id k m w hd ct).1.lookup d = some inst
+        rw [LecProps.C14.isolation_create r a id k m w hd ct d hm]; exact hl
+      | destroy d' =>
+        have hne : d ≠ d' := by
+          intro he
+          exact hno (LecProps.C14.Op.destroy d') (by simp) (by rw [he])
+        show (r.destroy d').1.lookup d = some inst
+        rw [LecProps.C14.isolation_destroy r d' d hne]; exact hl
+    · intro o' ho'; exact hno o' (by simp [ho'])
+
+/-- non-vacuity: a 100-byte buffer whose header announces 4 payload bytes satisfies the premises
+    of `metadata_reads_bounded` with n = 84, and the query succeeds on it. -/
+example :
+    (let i : Inst := { beId := 6, beVer := 0x010000, k := 2, m := 1, w := 16, ct := 2 }
+     let env : Env := { libver := 0x010604, legacy := false }
+     let f := (specHeader env i 1 5 4 [1, 2, 3, 4]).bytes ++ [1, 2, 3, 4] ++ List.replicate 16 0xAA
+     decide (80 + fSize f ≤ 84) && decide (fMagic f = magicC) &&
+       (match getFragmentMetadata (f.take 84) with | .ok m => m.mismatch == 0 | .error _ => false)) = true := by
+  decide +kernel
+
+#print axioms header_reads_80
+#print axioms metadata_reads_bounded
+#print axioms lookup_stable
 end LecProps.C15
